@@ -378,6 +378,17 @@ def run_evaltimes(drv, case) -> Outcome:
         out.detail = dict(real="Full", model=model_legacy)
         if model_legacy != "full":
             out.diverge(f"legacy evaluation times: /repo 'Full', model {model_legacy[:80]}")
+            # monitor: with "Full" the solver returns the sampled steps (every 1/rate ns) and the end points;
+            # every time an observable asked for must still be among them
+            grid = np.arange(T + 1, dtype=float)[np.linspace(0, T, int(rate * (T + 1)), dtype=int)] / 1000
+            rel_grid = np.union1d(grid, [0.0, T / 1000]) / T * 1e3
+            tol = 0.5 / T
+            lost = [r for r in requested if not any(abs(float(t) - r) <= tol for t in rel_grid)]
+            out.evaluations += 1
+            if lost:
+                out.fail("eval-time-roundtrip",
+                         f"default 'Full' at sampling_rate={rate}: the observables' own times {lost} (T={T}) are not "
+                         f"among the times handed to the solver")
         return out
     if model_legacy == "full":
         out.diverge("legacy evaluation times: model 'Full', /repo an array")
